@@ -9,9 +9,19 @@ KIND_OF_TYPE = {
 
 
 def all_classes():
-    import bromelia.avps  # noqa: F401  (imports every dictionary module)
-    import bromelia.lib   # noqa: F401
+    import importlib
+    import pkgutil
+    import bromelia.avps
+    import bromelia.lib
     from bromelia.base import DiameterAVP
+    # every module under bromelia.avps and bromelia.lib (some dictionary modules are only imported by a
+    # lib sub-package, e.g. ts_132_299 by bromelia.lib.etsi_3gpp_gy): the table must not depend on import order
+    for pkg in (bromelia.avps, bromelia.lib):
+        for mi in pkgutil.walk_packages(pkg.__path__, pkg.__name__ + "."):
+            try:
+                importlib.import_module(mi.name)
+            except Exception:       # optional third-party dependency of a sub-package
+                pass
     seen, out = set(), []
     for c in DiameterAVP.__subclasses__():
         if c not in seen:
